@@ -1,9 +1,10 @@
 (* Correspondence definitions for C13: as Corr/C14.v, but the whole OkResult is compared: a step records the statement,
    the engine's answer (None = duplicate-key error, Some (RowsAffected, UpdateInfo.Matched)) and the stored rows
-   afterwards; every step starts from the rows observed after the previous one (the table starts empty). *)
+   afterwards; every step starts from the rows observed after the previous one (the table starts empty).
+   Steps on keyless tables are judged twice: by the editor model (impl_exec) and by the multiset reference (ms_exec). *)
 From Coq Require Import List NArith ZArith Bool.
 Import ListNotations.
-From GMS Require Import Store.C14Editor Corr.C14.
+From GMS Require Import Store.C14Editor Store.C13Keyless Corr.C14.
 
 Definition step : Type := (stmt * option (N * N) * list row * bool)%type.
 Definition case : Type := (schema * list step)%type.
@@ -20,10 +21,22 @@ Definition step_ok (sch : schema) (pre : list row) (s : step) : bool :=
   let '(o, rows') := impl_exec sch pre st in
   outcome_ok o obs && (if ordered then rows_eqb rows' post else bag_eqb rows' post).
 
+(* keyless tables (no unique index, integer / binary-collated columns: the fragment of C13_keyless_editor_refines_multiset)
+   are ALSO compared with the declarative multiset reference ms_exec (Store/C13Keyless.v): counts and the bag of rows *)
+Definition ms_applies (sch : schema) : bool :=
+  keyless sch && (match s_uniq sch with [] => true | _ => false end) &&
+  forallb (fun c => match c with CBin => true | CCi => false end) (s_coll sch).
+
+Definition step_ok_ms (sch : schema) (pre : list row) (s : step) : bool :=
+  let '(st, obs, post, ordered) := s in
+  if ms_applies sch then
+    let '(o, rows') := ms_exec sch pre st in outcome_ok o obs && bag_eqb rows' post
+  else true.
+
 Fixpoint steps_ok (sch : schema) (pre : list row) (steps : list step) : bool :=
   match steps with
   | [] => true
-  | s :: steps' => step_ok sch pre s && steps_ok sch (snd (fst s)) steps'
+  | s :: steps' => step_ok sch pre s && step_ok_ms sch pre s && steps_ok sch (snd (fst s)) steps'
   end.
 
 Definition ok (c : case) : bool := let '(sch, steps) := c in steps_ok sch [] steps.
